@@ -571,3 +571,34 @@ def intro_programs(outers, inner, names=V_NAMES, mutated_sets=V_MUTATED, places=
                         yield Prog('V', key, sig, items,
                                    {'skeleton': f'{place}:{new}:{"".join(mutated)}', 'outer': outer, 'inner': inner,
                                     'ret': 'pair', 'rot': 0, 'size': 3})
+
+
+# ---------------------------------------------------------------------------
+# family Z: the sign of a zero made observable *by value*.  A zero is selected
+# (min / max of 2 and 3 operands in both orders, min / max / sum of a list,
+# if-expression arms) or produced (a product with a zero) and the program returns
+# 1 / z (so that +-0 becomes +-inf), copysign(1, z) (+-1) and z itself; the
+# argument vectors of this family hold +0.0 and -0.0 in both orders.
+
+Z_SCALAR = {
+    'max2': 'c = max(a, b)', 'max2r': 'c = max(b, a)', 'min2': 'c = min(a, b)', 'min2r': 'c = min(b, a)',
+    'max3': 'c = max(a, b, a * b)', 'max3r': 'c = max(a * b, b, a)', 'min3': 'c = min(a, b, a * b)',
+    'min3r': 'c = min(a * b, b, a)',
+    'ifeq': 'c = a if a == b else b', 'ifge': 'c = b if a >= b else a',
+    'mul': 'c = a * b', 'mulzero': 'c = a * fp.round(0)', 'negmul': 'c = (-a) * b',
+}
+Z_LIST = {'amax': 'c = max(us)', 'amin': 'c = min(us)', 'sum': 'c = sum(us)', 'amaxmix': 'c = max(max(us), a)'}
+Z_RETURNS = {'recip': 'return fp.round(1) / c', 'copysign': 'return fp.copysign(fp.round(1), c)',
+             'raw': 'return (c, fp.round(1) / c)'}
+
+
+def zero_programs(outers):
+    for outer in outers:
+        for sig, table in (('scalar', Z_SCALAR), ('list', Z_LIST)):
+            for name, stmt in table.items():
+                for rname, ret in Z_RETURNS.items():
+                    items = [W(outer, [S('a = u'), S('b = v'), S(stmt), S(ret)])]
+                    key = f'Z/{name}/{rname}/{outer}'
+                    yield Prog('Z', key, sig, items,
+                               {'skeleton': f'{name}:{rname}', 'outer': outer, 'inner': '-', 'ret': rname, 'rot': 0,
+                                'size': 2})
